@@ -124,8 +124,15 @@ func (c *Ctx) setupAnchors(ru *report.Rule) *setupAnchors {
 }
 
 // connAckCode returns the constant ReturnCode of the ConnAck literal passed to encoder.ConnAck, or -1.
-func connAckCode(call *core.Call) int64 {
+func connAckCode(call *core.Call) int64 { return connAckCodeOn(nil, call) }
+
+// connAckCodeOn is connAckCode along an inlined path: the code may be the parameter of a helper that writes the CONNACK
+// (connAck(c, connect, code)), bound to the constant the handler passes on this path.
+func connAckCodeOn(p *core.Path, call *core.Call) int64 {
 	rc := complitField(call.Arg(1), "ReturnCode")
+	if p != nil && rc != nil {
+		rc = conversionsOnly(p.Resolve(conversionsOnly(rc)))
+	}
 	if k, ok := rc.(*ssa.Const); ok && k.Value != nil && k.Value.Kind() == constant.Int {
 		v, _ := constant.Int64Val(k.Value)
 		return v
@@ -162,7 +169,7 @@ func (c *Ctx) checkSetupGating() {
 				creates++
 			case pc.Is(a.connAck):
 				acks++
-				code := connAckCode(pc.Call)
+				code := connAckCodeOn(p, pc.Call)
 				if code == 0 {
 					accepts++
 				} else {
